@@ -388,12 +388,41 @@ pub fn big_keys(seed: u64, wp: u32) -> Vec<Key> {
                 let k = Key::new(wp, &p, &q, kind);
                 let nbits = k.n.bits() as u32;
                 assert_eq!(nbits, if kind == "big-2k" { 2 * wp } else { 2 * wp - 1 });
+                // the first full-width key must admit the plaintext whose product with N ends in 2*wp one bits
+                // (the +1 of g^m = 1 + m*N then carries out of the low half of the wide product)
+                if kind == "big-2k" && order == 0 && carry_plaintext(&k.n, 2 * wp) >= k.n {
+                    continue;
+                }
                 out.push(k);
                 break;
             }
         }
     }
     out
+}
+
+/// m = -N^-1 mod 2^w: the plaintext for which the low `w` bits of m*N are all ones
+pub fn carry_plaintext(n: &B, w: u32) -> B {
+    let md = pow2(w);
+    let inv = inv_mod(&(n % &md), &md).expect("N is odd");
+    (&md - inv) % &md
+}
+
+/// plaintexts at the carry boundaries of 1 + m*N: for every limb boundary w (multiples of 64 up to the plaintext width)
+/// the m with m*N = -1 mod 2^w and its two neighbours, as far as they are below N
+pub fn carry_plaintexts(key: &Key) -> Vec<B> {
+    let mut v = Vec::new();
+    let mut w = 64;
+    while w <= 2 * key.wp {
+        let m = carry_plaintext(&key.n, w);
+        for c in [m.clone(), &m + bu(1), if m > bu(0) { &m - bu(1) } else { bu(0) }] {
+            if c < key.n && !v.contains(&c) {
+                v.push(c);
+            }
+        }
+        w += 64;
+    }
+    v
 }
 
 /// Mid-size keys (primes of 17..62 bits, balanced and very unbalanced, both orders), embedded in `wp`.
@@ -910,6 +939,9 @@ pub fn run(kv: &Args) -> i32 {
                         prop_encdec(imp, key, m, r, &mut out, true);
                     }
                 }
+                for (i, m) in carry_plaintexts(key).iter().enumerate() {
+                    prop_encdec(imp, key, m, &rs[i % 4], &mut out, i < 3);
+                }
                 for r in rs.iter() {
                     prop_root(imp, key, r, &mut out, true);
                 }
@@ -931,6 +963,12 @@ pub fn run(kv: &Args) -> i32 {
                         prop_encdec(imp, key, m, r, &mut out, k < *ncoq);
                         k += 1;
                     }
+                }
+                // carry boundaries of 1 + m*N; the full-width one (last in the list when it is below N) also goes to the model
+                let cp = carry_plaintexts(key);
+                let full = carry_plaintext(&key.n, 2 * key.wp);
+                for (i, m) in cp.iter().enumerate() {
+                    prop_encdec(imp, key, m, &rs[i % 4], &mut out, *ncoq > 0 && *m == full);
                 }
                 for (i, r) in rs.iter().enumerate() {
                     prop_root(imp, key, r, &mut out, i < (*ncoq + 1) / 2);
